@@ -117,8 +117,10 @@ def judge(in_line, out_line, cmd, viol, same_cols):
                          "witness": {"cmd": cmd}})
             break
     fin, fout = norm_fields(a[12:]), norm_fields(b[12:])
-    if cmd == "realign" and "cg:Z:*" not in fin and fout[-1:] == ["cg:Z:*"] and a[3] != a[2] and int(a[3]) - int(a[2]) <= 60000:
-        fout = fout[:-1]  # realign's purpose is to produce a CIGAR: a cg:Z appended to a CIGAR-less record is not "invented"
+    if cmd == "realign" and "cg:Z:*" not in fin and "cg:Z:*" in fout and a[3] != a[2] and int(a[3]) - int(a[2]) <= 60000:
+        # realign's purpose is to produce a CIGAR: a cg:Z added (anywhere) to a realigned CIGAR-less record is not "invented"
+        fout = list(fout)
+        fout.remove("cg:Z:*")
     if fin != fout:
         viol.append({"kind": "tags_differ", "msg": f"{cmd}: read {exp_name}: optional fields {a[12:][:8]} re-emitted as {b[12:][:8]}",
                      "witness": {"cmd": cmd, "in_fields": fin, "out_fields": fout}})
